@@ -165,12 +165,16 @@ def rand_cases():
     def case(draw):
         k = draw(st.sampled_from([2, 3, 3, 4, 4, 5, 5, 6, 7, 8, 8, 9, 9, 10, 11]))
         moves = draw(st.lists(st.sampled_from(["sh", "wf", "wf"]), min_size=k, max_size=k))
-        kind = draw(st.sampled_from(["int", "int-equalcol", "float", "int2"]))
+        kind = draw(st.sampled_from(["int", "int-equalcol", "float", "int2", "int-large-near-equal"]))
         # prefix length of the row sitting in plus slot s: >= s+1 (non-zero diagonal, the state after
         # sort_trajstate), optionally disturbed by the transpositions pick() applies before a later pick
         pref = [draw(st.integers(s + 1, k)) for s in range(k)]
         if kind == "float":
             wst = st.floats(1e-3, 1e6, allow_nan=False, allow_infinity=False) | st.sampled_from([1.0, 2.0, 0.5])
+        elif kind == "int-large-near-equal":
+            # frame counts of very long paths that differ by a few frames: unequal weights, however close
+            base = draw(st.sampled_from([10**5, 250000, 10**6]))
+            wst = st.integers(base, base + 3)
         else:
             wst = st.integers(1, 10**4) | st.integers(1, 12)
         colw = draw(st.lists(wst, min_size=k, max_size=k))
@@ -196,7 +200,7 @@ def rand_cases():
         return {
             "k": k, "kind": kind, "rows": rows, "slots": list(slots), "locks": locks,
             "scale_row": draw(st.integers(0, k - 1)),
-            "scale": draw(st.sampled_from([2.0, 0.5, 3.0, 10.0, 1e-3, 1e3, 7.25])),
+            "scale": draw(st.sampled_from([2.0, 0.5, 3.0, 10.0, 1e-3, 1e3, 7.25, 2.0**-30, 2.0**30])),
         }
 
     return case()
